@@ -85,7 +85,14 @@ RULE = ("serial calls only (parallel=False). STOCH cases: bounded-rate event mod
         "partial dicts, dict order shuffled). PARAM cases: the same models integrated deterministically by simulate_param / "
         "solve_determ with a random-parameter dict (frozen / tuple / mixed), n = 1..6, full_output both ways. Every choice, "
         "including the numpy seeds, derives from the case seed. A STOCH case is non-trivial when the traced call recorded >= 5 "
-        "accepted steps; a PARAM case when the integrations made with different draws differ.")
+        "accepted steps; a PARAM case when the integrations made with different draws differ. Forms: x0 as list / tuple / ndarray of "
+        "int / float / int32 (bare number for one state), t0 as numpy float64 / int64 / float32 (Python numbers 4%: rejected by the "
+        "unchanged tree, tagged), horizon also as numpy float / one-element tuple, n as int / numpy int64, grids as array / list / tuple; "
+        "the second and third instance of a PARAM case were integrated on the same grid / another grid / never. HIST cases: one "
+        "reference instance, two instances with 1 and 2-3 histories (kinds in HIST_STOCH_KINDS / HIST_PARAM_KINDS) each ending in the "
+        "target configuration and followed by 'seed; target call' twice; non-trivial when the reference call recorded >= 5 events "
+        "(stoch) / the runs differ from each other (param). SESSION cases: stoch_common.gen_session (2-4 runs, 60% exact, 30% grids, "
+        "fresh reference for half of the runs, repeat of the first call); non-trivial with >= 2 calls and >= 5 accepted steps.")
 ASSUMPTIONS = ["'different seeds change the outputs' is runtime: numpy maps different seeds to streams whose first consumed draws differ; "
                "checked on raw (scalar-horizon) stochastic output with >= 20 recorded events and a coincidence probability < 1e-12 "
                "computed from the recorded run (a continuous draw, or the product of the Poisson pmfs of the recorded counts), and "
